@@ -132,7 +132,7 @@ chk("C05",
     "SSE1.shape: array length, every cell length, table size and every entry length are functions of the CONFIGURATION only. CT14.shape / ANSS16.shape: the whole index - "
     "number of level tables, entries per table (2^(t-j) resp. 2^(t+1-j) and 2^t for HT(S)), every label and value length - is a function of t = ceil(log2 N) only, for every database, key "
     "and tape; the proofs contain the capacity bounds the padding relies on (at most one chunk of 2^j <= |DB(w)| per keyword and level; a list kept at level j has more than 2^j/2 entries), "
-    "the second being what commit f3c43f7 repaired. Hypotheses (identifier size, dummy keywords fresh, labels distinct) are evaluated by the driver on every recorded run. Remaining schemes (SSE2, PiPtr, Pi2Lev, DP17): the "
+    "the second being what commit f3c43f7 repaired. Hypotheses (identifier size, dummy keywords fresh, labels distinct) are evaluated by the driver on every recorded run. DP17.arrays_shape: bucket count and byte length of every bucket of every level array are a function of N and the configuration (level list without repetition). Remaining claims (SSE2, PiPtr, Pi2Lev, DP17's hash table): the "
     "correspondence reproduces every cell INCLUDING padding cells (count and lengths) from the recorded draws, and the direct oracle builds, for "
     "every generated database, a second valid database with the same public size parameter (SSE1: none; SSE2/PiBas/DP17: N; PiPack: blocks; "
     "PiPtr: (blocks, pointer blocks); Pi2Lev: (keywords, array length); CT14/ANSS16: ceil(log2 N)) but other contents and list lengths, compares "
@@ -144,7 +144,7 @@ chk("C06",
     "Props/C06.lean: every label-addressed table of PiBas, PiPack, PiPtr, Pi2Lev, CT14 and ANSS16 is `buildTable` of a pair list (proved by "
     "unfolding each setup); for every pair list with distinct labels the stored label sequence is sorted in Python's bytes order and depends "
     "only on the SET of labels (bytes order proved total, transitive, antisymmetric; sorted permutations are equal); for PiBas/PiPack whole runs: "
-    "the same key on any permutation of the database, with any randomness, stores the same label sequence. Array placement (PiPtr/Pi2Lev sample, "
+    "the same key on any permutation of the database, with any randomness, stores the same label sequence. PiPtr placement is PROVED to be the image of the recorded random sample: the occupied slots are the tail of the sample, and the blocks of a keyword sit at sample.reverse[m..m+k) with m, k block counts only (placement_is_sample, placement_order_free, placement_is_random_image). Array placement of the other schemes (Pi2Lev sample, "
     "SSE1 PRP, DP17 bucket choice and shuffle) is modelled and replayed cell by cell; that two setups differ is a statement about `random` and is "
     "sampled by the direct oracle on databases with >= 12 array-resident blocks (one long list, three lists, many lists). Direct oracle (a): permute "
     "the keyword order, all tables sorted, real labels in the same order.",
